@@ -214,6 +214,12 @@ class BatchSimulation():
 
             self._log_progress(i_trial, n_trials)
 
+        # Nothing was left to run (for instance when a previous run() of this
+        # object was interrupted while saving its last trial): make sure that
+        # the results are on disk.
+        if min_current_trial >= n_trials:
+            self.save_results()
+
         # for simulation in self._simulations:
         #     if self.verbose:
         #         print(f"\nPost-processing {simulation.label}")
